@@ -21,7 +21,7 @@ EXPLANATION = (
     'running time (generation and skip) advance it by exactly count x Ts (equal term normal forms), and nothing '
     'else writes it. C14.c: (DSF) the per-ray phases always match the configured shape and number of rays after '
     'any sequence of shape changes. Not decided: sample values, |h| <= sqrt(L), zero-Doppler invariance.'
-    ' General rules also applied here (see DESIGN 10.5): validate-before-commit (no `raise` reachable after the object was already changed in a public mutator); escaping attributes are only rebound, never written in place.')
+    ' General rules also applied here (see DESIGN 10.5): validate-before-commit (no `raise` reachable after the object was already changed in a public mutator); escaping attributes are only rebound, never written in place. C14.g: block loops with a floor trip count test/handle the remainder.')
 
 INT_FUNCS = {'int', 'len', 'round'}
 
@@ -168,6 +168,9 @@ def synthetic():
 
 
 MUTANTS = [
+    Mutant('samples-generated-in-whole-blocks-only', FG, 'JakesSampleGenerator.generate_more_samples',
+           [('regex', r'h = math\.sqrt[^\n]*\n', 'n = t.shape[-1]\n    blk = 2 ** 16\n    h = np.empty(self._phi_l.shape[1:-1] + (n,), dtype=complex)\n    for b in range(max(n // blk, 1)):\n        h[..., b * blk:(b + 1) * blk] = math.sqrt(1.0 / self.L) * np.sum(np.exp(1j * (2 * np.pi * self.Fd * np.cos(self._phi_l) * t[..., b * blk:(b + 1) * blk] + self._psi_l)), axis=0)\n')],
+           r'C14\.g:JakesSampleGenerator\.generate_more_samples:floor-blocks'),
     Mutant('revert-fix-float-arange', FG, 'JakesSampleGenerator._generate_time_samples',
            [('regex', r't = [^\n]*np\.arange\([^\n]*\)[^\n]*', 't = np.arange(self._current_time, num_samples * self.Ts + self._current_time, self.Ts)')],
            r'C14\.a:JakesSampleGenerator\._generate_time_samples'),
